@@ -496,6 +496,10 @@ theorem run_inv (P : World → Prop)
     · rename_i w' out h; exact hstep _ _ _ _ _ h0 h
     · exact h0
 
+@[simp] theorem run_nil (w : World) : run w [] = w := rfl
+@[simp] theorem run_cons (w : World) (o : Block × Op) (ops : List (Block × Op)) :
+    run w (o :: ops) = run (step w o.1 o.2) ops := rfl
+
 theorem run_append (w : World) (a b : List (Block × Op)) : run w (a ++ b) = run (run w a) b := by
   simp [run, List.foldl_append]
 
